@@ -86,6 +86,11 @@ def replay(item):
         r2 = run_async(vt.execute(content=r["canonical"], schema=name, fix=fix))
         log2 = [x for x in r2.get("repairs", []) if isinstance(x, dict) and x.get("tier") is not None]
         entry("octave_validate", fix, r["canonical"], log, r2["canonical"], log2)
+    # fix off under every profile: no profile implies repair
+    for prof in ("STRICT", "LENIENT", "ULTRA"):
+        r = run_async(vt.execute(content=text, schema=name, fix=False, profile=prof))
+        log = [x for x in r.get("repairs", []) if isinstance(x, dict) and x.get("tier") is not None]
+        entry("octave_validate_%s" % prof, False, r["canonical"], log)
     # the same long-lived tool, fix off again after fix on was served for the very same text: still nothing may change
     r = run_async(vt.execute(content=text, schema=name, fix=False))
     log = [x for x in r.get("repairs", []) if isinstance(x, dict) and x.get("tier") is not None]
@@ -114,7 +119,7 @@ MATCHERS = {}
 def run(ctx):
     try:
         states = {"ok", "bad", "missing", "null", "ambig", "casefold", "casefold2", "numstr", "numstr_out", "numbad", "numover",
-                  "numfloat", "numbig", "dup_numstr", "dup_casefold", "dup_bad_last"}
+                  "numfloat", "numbig", "dup_numstr", "dup_casefold", "dup_bad_last", "casefold3", "casefold1"}
         res = ctx.model("SchemaDocs", constants={"MaxFields": 3 if ctx.thorough else 2, "StateSet": states, "Spell": False},
                         invariants=["EmitCase"], required_actions=["Fill"])
         cases = list(res.payload_lines())
@@ -124,7 +129,7 @@ def run(ctx):
     fails = ctx.validate("Trace_Repair", [{k: r[k] for k in ("i", "case", "obs")} for r in recs],
                          constants={"MaxFields": 0, "StateSet": set(), "Spell": False})
     failures = [{"i": r["i"], "case": r["case"], "obs": r["obs"], "text": r["text"], "fails": fails[r["i"]]} for r in recs if r["i"] in fails]
-    repairable = {"casefold", "casefold2", "numstr", "numstr_out", "numfloat", "numbig", "dup_numstr", "dup_casefold"}
+    repairable = {"casefold", "casefold2", "casefold1", "numstr", "numstr_out", "numfloat", "numbig", "dup_numstr", "dup_casefold"}
     return engine.report(
         ctx, failures=failures, matchers=MATCHERS, evaluations=sum(len(r["obs"]) for r in recs),
         distinct_nontrivial=sum(1 for c in cases if any(s in repairable for s in c["inst"].values())),
